@@ -248,7 +248,7 @@ func (c *fnCtx) initObligations() {
 			cond := fmt.Sprintf("(forall ((k Int)) (=> (and (<= 0 k) (< k %s)) (select (select %s %s) (+ %s k))))", w.sl.T[2], h, w.sl.T[0], w.sl.T[1])
 			guard := fmt.Sprintf("(and %s %s %s (= %s 0))", r.reach, w.reach, errNil, w.err.T[0])
 			o := &Obl{Class: "init", Fn: c.fnName(), Pos: c.eng.prog.Fset.Position(w.pos), Text: "window fully written", Guard: guard, Cond: cond}
-			o.Name = fmt.Sprintf("%s#init:win%d/ret%d", o.Fn, wi, ri)
+			o.Name = fmt.Sprintf("%s#init:win%d/%s", o.Fn, wi, c.retLabel(ri))
 			c.obls = append(c.obls, o)
 		}
 	}
@@ -745,7 +745,7 @@ func (c *fnCtx) resetObligations() {
 			h := c.heapGet(gk)
 			c.st = saved
 			o := &Obl{Class: "reset", Fn: c.fnName(), Pos: c.eng.prog.Fset.Position(r.pos), Text: "field " + k.name + " is assigned before a successful return", Guard: "(and " + r.reach + " " + errNil + ")", Cond: "(= (select " + h + " 0) 1)"}
-			o.Name = fmt.Sprintf("%s#reset:%s/ret%d", o.Fn, k.name, ri)
+			o.Name = fmt.Sprintf("%s#reset:%s/%s", o.Fn, k.name, c.retLabel(ri))
 			o.Witness = witness[k.key]
 			c.obls = append(c.obls, o)
 		}
